@@ -76,6 +76,10 @@ var branchCmd = &cobra.Command{
 			if err := client.Head.Update(client.Refs, client.RootGoitPath, renameOption); err != nil {
 				return fmt.Errorf("fail to update HEAD: %w", err)
 			}
+			// HEAD names the new branch: the file of the old name can go
+			if err := client.Refs.RemoveBranchFile(client.RootGoitPath, prevBranch); err != nil {
+				return fmt.Errorf("fail to rename branch: %w", err)
+			}
 			// log
 			if err := gLogger.WriteHEAD(log.NewRecord(log.BranchRecord, client.Head.Commit.Hash, nil, client.Conf.GetUserName(), client.Conf.GetEmail(), time.Now(), fmt.Sprintf("renamed refs/heads/%s to refs/heads/%s", prevBranch, client.Head.Reference))); err != nil {
 				return fmt.Errorf("log error: %w", err)
